@@ -89,6 +89,9 @@ var relations = []relation{
 	}},
 	{"psi(x+1)=psi(x)+1/x", func(v []float64) (bool, string, string) {
 		x := v[0]
+		if math.IsInf(condPole(x), 1) {
+			return true, "", "digamma" // pole: NaN is the specified outcome
+		}
 		p0, p1 := sp.Digamma(x), sp.Digamma(x+1)
 		scale := math.Abs(p0) + math.Abs(p1) + 1/math.Abs(x)
 		ok := finite(p0) && finite(p1) && math.Abs(p1-p0-1/x) <= 1e-12*scale*(1+condPole(x))
@@ -96,6 +99,9 @@ var relations = []relation{
 	}},
 	{"psi_n(x+1)=psi_n(x)+(-1)^n n!/x^(n+1)", func(v []float64) (bool, string, string) {
 		n, x := int(v[0]), v[1]
+		if math.IsInf(condPole(x), 1) {
+			return true, "", "polygamma" // pole: NaN / Inf is the specified outcome
+		}
 		p0, pp0 := safe(func() float64 { return sp.Polygamma(n, x) })
 		p1, pp1 := safe(func() float64 { return sp.Polygamma(n, x+1) })
 		t := fact(n) / math.Pow(x, float64(n+1))
